@@ -167,6 +167,24 @@ def structured_family():
     return out
 
 
+def effect_family():
+    """static initialisers with visible effects (they call a function that echoes): several classes whose initialisers are independent of
+    each other, and some that read each other's statics. In which order independent initialisers run is not documented; what the
+    property requires is that it does not depend on the order of the declarations: every permutation prints exactly what the first one
+    prints, and the same lines as the reference (which initialises in the given order) up to the order of the initialisers' lines."""
+    from bsyntax import Program, Func, Class, Field, Param, P, VOID, I, S, Var, Echo, Ret, Call, Bin, SFld
+    note = Func("note", [Param(P("str"), "s"), Param(P("int"), "v")], P("int"), [Echo(Var("s")), Ret(Var("v"))])
+    out = []
+    mk = lambda n, init: Class(n, "", [Field(P("int"), "v", init, static=True)], [], [], [], static=True)
+    out.append(("independent static initialisers with effects", Program([note, Func("main", [], VOID, [Echo(S("main")), Echo(Bin("+", Bin("+", SFld("Alpha", "v"), SFld("Beta", "v")), SFld("Gamma", "v")))])],
+                [mk("Alpha", Call("note", S("alpha"), I(1))), mk("Beta", Call("note", S("beta"), I(2))), mk("Gamma", Call("note", S("gamma"), I(3)))])))
+    out.append(("dependent static initialisers with effects", Program([note, Func("main", [], VOID, [Echo(S("main")), Echo(SFld("Zeta", "v")), Echo(SFld("Mid", "v"))])],
+                # (given in dependency order, which the reference needs)
+                [mk("Zeta", Call("note", S("zeta"), I(5))), mk("Mid", Call("note", S("mid"), I(20))), mk("Alpha", Call("note", S("alpha"), Bin("+", SFld("Zeta", "v"), I(1)))),
+                 mk("Omega", Call("note", S("omega"), Bin("+", SFld("Alpha", "v"), SFld("Mid", "v"))))])))
+    return out
+
+
 def run(tier, seed):
     t0 = time.time()
     out = vlib.Outcome(PID)
@@ -216,15 +234,37 @@ def run(tier, seed):
             jid = len(jobs)
             struct_jobs[jid] = (k, what, list(order))
             jobs.append({"id": jid, "src": bsyntax.render(p, order=list(order)), "gc": "none"})
+    eff = effect_family()
+    eff_oracle = semrun.tlc_oracle([(k, p) for k, (_, p) in enumerate(eff)])
+    eff_jobs = {}
+    for k, (what, p) in enumerate(eff):
+        decls = [("c", i) for i in range(len(p["classes"]))] + [("f", i) for i in range(len(p["funcs"]))]
+        for order in itertools.permutations(decls):
+            jid = len(jobs)
+            eff_jobs[jid] = (k, what, list(order))
+            jobs.append({"id": jid, "src": bsyntax.render(p, order=list(order)), "gc": "none"})
     res = runner.run_jobs(jobs)
     bad = {}
+    first = {}
+    for jid, (k, what, order) in eff_jobs.items():
+        meta[jid] = (what, order)
+        r = res[jid]
+        got = r["shots"][0]["echo"] if r.get("status") == "ok" and r.get("shots") and r["shots"][0]["status"] == "ok" else None
+        ref = [l for l in eff_oracle[k]["out"] if not l.startswith(("<<", ">>"))]
+        if got is None:
+            bad[jid] = "%s: this order ends with %s %s" % (what, r.get("status"), r.get("what", (r.get("shots") or [{}])[0].get("what", "")))
+        elif sorted(got) != sorted(ref):
+            bad[jid] = "%s: prints %s, the reference prints the lines %s" % (what, got, ref)
+        elif k in first and got != first[k][1]:
+            bad[jid] = "%s: prints %s in this order and %s in the order %s" % (what, got, first[k][1], first[k][0])
+        first.setdefault(k, (order, got))
     for jid, (k, what, order) in struct_jobs.items():
         meta[jid] = (what, order)
         m = semrun.compare(struct_oracle[k], res[jid])
         if m:
             bad[jid] = "%s: %s" % (what, m)
     for jid, (bi, order) in list(meta.items()):
-        if jid in struct_jobs:
+        if jid in struct_jobs or jid in eff_jobs:
             continue
         m = semrun.compare(oracle[bi], res[jid])
         if m:
